@@ -476,7 +476,7 @@ Proof.
   - inversion H; subst; clear H. eapply upd_inv; [exact I|exact Ha|reflexivity|reflexivity|wfc_tac Wr|wsimp; lia].
   - (* ITaskStart: the only instruction of a fresh delivery goroutine *)
     assert (rest = []) by (apply (W [] (ITaskStart p h) rest eq_refl); reflexivity). subst rest.
-    destruct (is_cancelled s (pb_ctx (get_pub s p))); inversion H; subst; clear H.
+    destruct (is_cancelled s (pb_ctx (get_pub s p)) && negb (h_once (r_spec h))); inversion H; subst; clear H.
     + eapply upd_inv; [exact I|exact Ha|reflexivity|reflexivity| |wsimp; cbn; lia].
       intros pre x post E _. destruct pre as [|y pre]; cbn in E; inversion E; [reflexivity|destruct pre; discriminate].
     + destruct (call_handler_shape P p h true (c_obs cfg)) as [pre [E Hp]].
@@ -1003,13 +1003,15 @@ Proof.
   unfold get_pub. cbn [cont set_code pubs]. rewrite assoc_get_set_same. reflexivity.
 Qed.
 
-(* a delivery goroutine whose publish context is cancelled when it starts runs nothing but wg.Done *)
+(* a delivery goroutine whose publish context is cancelled when it starts runs nothing but wg.Done - unless the handler
+   is a Once handler, which the publish has already claimed: that one runs *)
 Theorem task_start_decision P cfg s a p h rest s' ls :
   step_instr P cfg s a (ITaskStart p h) rest = Some (s', ls) ->
-  assoc_get (code s') a = Some (if is_cancelled s (pb_ctx (get_pub s p)) then ITaskDone :: rest
+  assoc_get (code s') a = Some (if is_cancelled s (pb_ctx (get_pub s p)) && negb (h_once (r_spec h)) then ITaskDone :: rest
                                 else call_handler P p h true (c_obs cfg) ++ rest) /\ ls = [].
 Proof.
-  intros H. cbn [step_instr] in H. destruct (is_cancelled s (pb_ctx (get_pub s p))); inversion H; subst; split; try apply code_cont; reflexivity.
+  intros H. cbn [step_instr] in H.
+  destruct (is_cancelled s (pb_ctx (get_pub s p)) && negb (h_once (r_spec h))); inversion H; subst; split; try apply code_cont; reflexivity.
 Qed.
 
 (* context-aware handlers are entered with the publish context *)
@@ -2468,3 +2470,17 @@ Proof.
     + exfalso. apply (Hnc a0 rest0 Ha0).
   - exists a, i, rest. split; [exact Ha|]. intros ->. apply (Hnc a rest Ha).
 Qed.
+
+(* ================================================================== *)
+(* C04: "exactly once when eligible" has one residual hole in the faithful model: a synchronous Once handler is claimed
+   (context live), another goroutine cancels the context before the publisher reaches the per-handler cancellation
+   check two statements later, and the handler is skipped although it has been used up.  (The asynchronous form of this
+   hole - the context cancelled before the delivery goroutine starts - was a reproducible defect and has been repaired.) *)
+Lemma sync_claim_then_cancel :
+  let P := {| p_bodies := [(0, {| b_acts := [] |})]; p_filters := []; p_routes := fun _ => 0; p_nshards := 32; p_pfault := fun _ => PfOk |} in
+  let sp := {| h_fn := 0; h_once := true; h_async := false; h_seq := false; h_ctx := false; h_filter := None; h_body := 0 |} in
+  let th := [[ASub 0 sp; APub 0 1 (CtxId 1) false; ACount 0; APub 0 2 CtxBg false; ACount 0]; [ACancel 1]] in
+  let '(s, ls) := run P cfg0 (init_state th) (repeat 0 7 ++ [1; 1; 1] ++ repeat 0 80) in
+  cnt_entered 0 s = 0 /\
+  filter (fun l => match l with LRes (ACount _) _ => true | _ => false end) ls = [LRes (ACount 0) 0; LRes (ACount 0) 0].
+Proof. vm_compute. auto. Qed.
